@@ -1,2 +1,307 @@
-/- Property theorems for C05 (placeholder until the proofs land). -/
-import Avt.Spec.C05
+/-
+  Avt.Props.C05 — property theorems for C05 (cursor movement and addressing).
+  Helper lemmas: Avt/Lemmas/C05.lean (and Avt/Lemmas/C18.lean for the tab searches).
+
+  `C05_move` is unbounded: every terminal satisfying the invariant `TInv` (every size, every margin
+  pair, cursor anywhere incl. the wrap-pending column, origin mode on or off, both screens), every
+  covered command, every parameter value.  Because the conclusion is an equation between complete
+  terminals, it contains at once: the command never panics; the cursor, pending-wrap flag, margins
+  and origin mode are as `moveSpec` says; nothing else — no cell of either buffer, no wrap mark, no
+  pen, mode, tab stop, saved context or dirty flag — changes.
+-/
+import Avt.Lemmas.C05
+
+namespace Avt
+open Avt.Spec Avt.Spec.C05 Avt.Lemmas.C05
+
+/-- every pure cursor command does exactly what `moveSpec` says -/
+theorem C05_move {t : Terminal} {f : Function} (h : TInv t = true) (hf : covered t f = true) :
+    t.execute f = some (moveSpec t f) := by
+  have F := facts h
+  have hc := F.cols
+  have hr := F.rows
+  cases f <;> simp only [covered, Bool.false_eq_true] at hf
+  case bs =>
+    simp only [Terminal.execute, Terminal.bs, moveSpec]
+    rcases F.col with ⟨hp, hcol⟩ | ⟨hp, hcol⟩
+    · simp only [hp, if_true]
+      apply relCol_eq hc
+      simp only [left, realCol, lastCol]; omega
+    · simp only [hp, Bool.false_eq_true, if_false]
+      apply relCol_eq hc
+      simp only [left, realCol, lastCol]; omega
+  case cbt n => exact tab_bridge h (.cbt n) rfl rfl
+  case cha n =>
+    simp only [Terminal.execute, moveSpec, arg_eq]
+    exact moveToCol_eq hc _
+  case cht n => exact tab_bridge h (.cht n) rfl rfl
+  case cnl n =>
+    simp only [Terminal.execute, moveSpec, arg_eq, cursorDown_eq hc hr, Option.map_some]
+    rfl
+  case cpl n =>
+    simp only [Terminal.execute, moveSpec, arg_eq, cursorUp_eq hc, Option.map_some]
+    rfl
+  case cr => rfl
+  case cub n =>
+    simp only [Terminal.execute, Terminal.cub, moveSpec, arg_eq]
+    have := arg_pos n
+    rcases F.col with ⟨hp, hcol⟩ | ⟨hp, hcol⟩
+    · simp only [hp, if_true]
+      apply relCol_eq hc
+      simp only [left, realCol, lastCol]; omega
+    · simp only [hp, Bool.false_eq_true, if_false]
+      apply relCol_eq hc
+      simp only [left, realCol, lastCol]; omega
+  case cud n =>
+    simp only [Terminal.execute, moveSpec, arg_eq]
+    exact cursorDown_eq hc hr _
+  case cuf n =>
+    simp only [Terminal.execute, moveSpec, arg_eq]
+    have := arg_pos n
+    apply relCol_eq hc
+    simp only [right, lastCol]
+    rcases F.col with ⟨_, hcol⟩ | ⟨_, hcol⟩ <;> omega
+  case cup r c =>
+    simp only [Terminal.execute, Terminal.cup, moveSpec, arg_eq, moveToCol_eq hc]
+    rw [moveToRow_eq (t := cursorAt t _ _) hc hr F.tb]
+    apply some_cursorAt_congr t
+    · simp only [realCol, cursorAt, lastCol, absCol]; omega
+    · rfl
+  case cuu n =>
+    simp only [Terminal.execute, moveSpec, arg_eq]
+    exact cursorUp_eq hc _
+  case decrst ms =>
+    simp only [Bool.and_eq_true, Bool.not_eq_true'] at hf
+    simp only [Terminal.execute, moveSpec, decrst_origins ms t hc hf.2, hf.1]
+    rfl
+  case decset ms =>
+    simp only [Bool.and_eq_true, Bool.not_eq_true'] at hf
+    simp only [Terminal.execute, moveSpec, decset_origins ms t hc hf.2, hf.1]
+    rfl
+  case decstbm a b =>
+    simp only [Terminal.execute, Terminal.decstbm, moveSpec, newMargins]
+    have hb : csub (asUsize b t.rows) 1 = some ((if b = 0 then t.rows else b) - 1) := by
+      unfold asUsize csub
+      split <;> simp <;> omega
+    simp only [hb]
+    simp only [asUsize, arg]
+    by_cases hcond : (if a = 0 then 1 else a) - 1 < (if b = 0 then t.rows else b) - 1
+        ∧ (if b = 0 then t.rows else b) - 1 < t.rows
+    · simp only [hcond.1, hcond.2, and_self, if_true]
+      exact home_eq hc
+    · simp only [hcond, if_false]
+      exact home_eq hc
+  case ht => exact tab_bridge h .ht rfl rfl
+  case lf =>
+    have hne : t.cursor.row ≠ t.bottomMargin := by simpa using hf
+    simp only [Terminal.execute, Terminal.lf, moveSpec, downWithScroll_eq hc hr hne, Option.map_some]
+    have : (oneDown t).newLineMode = t.newLineMode := by unfold oneDown; split <;> rfl
+    rw [this]
+    split <;> rfl
+  case nel =>
+    have hne : t.cursor.row ≠ t.bottomMargin := by simpa using hf
+    simp only [Terminal.execute, Terminal.nel, moveSpec, downWithScroll_eq hc hr hne, Option.map_some]
+    rfl
+  case ri =>
+    have hne : t.cursor.row ≠ t.topMargin := by simpa using hf
+    simp only [Terminal.execute, Terminal.ri, moveSpec, hne, if_false]
+    split
+    · rw [toRow_eq hc]
+    · rfl
+  case vpa n =>
+    simp only [Terminal.execute, moveSpec, arg_eq]
+    exact moveToRow_eq hc hr F.tb _
+  case vpr n =>
+    simp only [Terminal.execute, moveSpec, arg_eq]
+    exact cursorDown_eq hc hr _
+
+/-! ### corollaries in the property's own words -/
+
+/-- the same at the level of `Vt::feed`: a character that completes a pure cursor command leaves the
+    terminal exactly as `moveSpec` says (and the parser as the parser says) -/
+theorem C05_feed {v : Vt} {c : Nat} {p : Parser} {f : Function} (h : TInv v.terminal = true)
+    (hp : v.parser.feed c = some (p, some f)) (hf : covered v.terminal f = true) :
+    v.feed c = some { parser := p, terminal := moveSpec v.terminal f } := by
+  simp only [Vt.feed, hp, C05_move h hf, Option.map_some]
+
+/-- none of these commands changes any cell (of either screen), nor the scrollback -/
+theorem C05_no_cell_changes {t t' : Terminal} {f : Function} (h : TInv t = true)
+    (hf : covered t f = true) (he : t.execute f = some t') :
+    t'.buffer = t.buffer ∧ t'.otherBuffer = t.otherBuffer := by
+  rw [C05_move h hf] at he
+  cases he
+  cases f <;> simp only [covered, Bool.false_eq_true] at hf <;>
+    first
+    | exact ⟨rfl, rfl⟩
+    | (simp only [moveSpec, oneDown]; split <;> (try split) <;> exact ⟨rfl, rfl⟩)
+
+/-- the cursor stays on the screen: a row of the screen, a column of the screen or the wrap-pending
+    column with the flag set -/
+theorem C05_stays_on_screen {t t' : Terminal} {f : Function} (h : TInv t = true)
+    (hf : covered t f = true) (he : t.execute f = some t') :
+    t'.rows = t.rows ∧ t'.cols = t.cols ∧ t'.cursor.row < t'.rows
+      ∧ ((t'.pendingWrap = true ∧ t'.cursor.col = t'.cols) ∨ (t'.pendingWrap = false ∧ t'.cursor.col < t'.cols)) := by
+  rw [C05_move h hf] at he
+  cases he
+  have F := facts h
+  have hc := F.cols
+  have hr := F.rows
+  have hrow := F.row
+  have htb := F.tb
+  have hbr := F.br
+  have keep : t.rows = t.rows ∧ t.cols = t.cols ∧ t.cursor.row < t.rows
+      ∧ ((t.pendingWrap = true ∧ t.cursor.col = t.cols) ∨ (t.pendingWrap = false ∧ t.cursor.col < t.cols)) :=
+    ⟨rfl, rfl, F.row, F.col⟩
+  have place : ∀ (s : Terminal) (c r : Nat), s.rows = t.rows → s.cols = t.cols → c < t.cols → r < t.rows →
+      (cursorAt s c r).rows = t.rows ∧ (cursorAt s c r).cols = t.cols
+        ∧ (cursorAt s c r).cursor.row < (cursorAt s c r).rows
+        ∧ (((cursorAt s c r).pendingWrap = true ∧ (cursorAt s c r).cursor.col = (cursorAt s c r).cols)
+            ∨ ((cursorAt s c r).pendingWrap = false ∧ (cursorAt s c r).cursor.col < (cursorAt s c r).cols)) := by
+    intro s c r h1 h2 h3 h4
+    refine ⟨h1, h2, ?_, Or.inr ⟨rfl, ?_⟩⟩
+    · show r < s.rows; omega
+    · show c < s.cols; omega
+  have tabs := Avt.Lemmas.C18.moves h
+  cases f <;> simp only [covered, Bool.false_eq_true] at hf
+  case bs => exact place t _ _ rfl rfl (by simp only [left, realCol, lastCol]; omega) hrow
+  case cbt n =>
+    refine ⟨rfl, rfl, ?_, Or.inr ⟨rfl, ?_⟩⟩
+    · exact (tabs (arg n)).2.2.2.2.2 ▸ hrow
+    · exact (tabs (arg n)).2.2.2.1
+  case cha n => exact place t _ _ rfl rfl (by simp only [absCol, lastCol]; omega) hrow
+  case cht n =>
+    refine ⟨rfl, rfl, ?_, Or.inr ⟨rfl, ?_⟩⟩
+    · exact (tabs (arg n)).2.2.2.2.1 ▸ hrow
+    · exact (tabs (arg n)).2.2.1
+  case cnl n => exact place t _ _ rfl rfl (by omega) (by unfold down lastRow; split <;> omega)
+  case cpl n => exact place t _ _ rfl rfl (by omega) (by unfold up; split <;> omega)
+  case cr => exact place t _ _ rfl rfl (by omega) hrow
+  case cub n => exact place t _ _ rfl rfl (by simp only [left, realCol, lastCol]; omega) hrow
+  case cud n =>
+    exact place t _ _ rfl rfl (by simp only [realCol, lastCol]; omega) (by unfold down lastRow; split <;> omega)
+  case cuf n => exact place t _ _ rfl rfl (by simp only [right, lastCol]; omega) hrow
+  case cup r c =>
+    exact place t _ _ rfl rfl (by simp only [absCol, lastCol]; omega)
+      (by unfold absRow lastRow; split <;> omega)
+  case cuu n =>
+    exact place t _ _ rfl rfl (by simp only [realCol, lastCol]; omega) (by unfold up; split <;> omega)
+  case decrst ms => exact place _ _ _ rfl rfl (by omega) (by omega)
+  case decset ms => exact place _ _ _ rfl rfl (by omega) (by omega)
+  case decstbm a b =>
+    refine place _ _ _ rfl rfl (by omega) ?_
+    have : (newMargins t a b).1 < t.rows := by
+      unfold newMargins
+      simp only
+      by_cases hcond : arg a - 1 < (if b = 0 then t.rows else b) - 1 ∧ (if b = 0 then t.rows else b) - 1 < t.rows
+      · rw [if_pos hcond]; show arg a - 1 < t.rows; omega
+      · rw [if_neg hcond]; show t.topMargin < t.rows; omega
+    show (if t.originMode = true then (newMargins t a b).1 else 0) < t.rows
+    split <;> omega
+  case ht =>
+    refine ⟨rfl, rfl, ?_, Or.inr ⟨rfl, ?_⟩⟩
+    · exact (tabs 1).2.2.2.2.1 ▸ hrow
+    · exact (tabs 1).2.2.1
+  case lf =>
+    simp only [moveSpec, oneDown, lastRow]
+    by_cases hlt : t.cursor.row < t.rows - 1 <;> by_cases hnl : t.newLineMode = true <;>
+      simp only [hlt, hnl, if_true, if_false]
+    · exact place _ _ _ rfl rfl (by omega) (by show t.cursor.row + 1 < t.rows; omega)
+    · exact place _ _ _ rfl rfl (by simp only [realCol, lastCol]; omega) (by omega)
+    · exact place _ _ _ rfl rfl (by omega) hrow
+    · exact keep
+  case nel =>
+    simp only [moveSpec, oneDown, lastRow]
+    by_cases hlt : t.cursor.row < t.rows - 1 <;> simp only [hlt, if_true, if_false]
+    · exact place _ _ _ rfl rfl (by omega) (by show t.cursor.row + 1 < t.rows; omega)
+    · exact place _ _ _ rfl rfl (by omega) hrow
+  case ri =>
+    simp only [moveSpec]
+    split
+    · exact place _ _ _ rfl rfl (by simp only [realCol, lastCol]; omega) (by omega)
+    · exact keep
+  case vpa n =>
+    exact place t _ _ rfl rfl (by simp only [realCol, lastCol]; omega)
+      (by unfold absRow lastRow; split <;> omega)
+  case vpr n =>
+    exact place t _ _ rfl rfl (by simp only [realCol, lastCol]; omega) (by unfold down lastRow; split <;> omega)
+
+/-- RI off the top margin moves the cursor up exactly one row (not past row 0) whatever the origin
+    mode: the resulting position does not depend on `originMode` -/
+theorem C05_ri_independent_of_origin {t : Terminal} (h : TInv t = true)
+    (hne : t.cursor.row ≠ t.topMargin) (o : Bool) :
+    (({ t with originMode := o } : Terminal).execute .ri).map (fun s => (s.cursor, s.pendingWrap))
+      = (t.execute .ri).map (fun s => (s.cursor, s.pendingWrap))
+    ∧ ∀ t', t.execute .ri = some t' → t'.cursor.row = t.cursor.row - 1 := by
+  have h' : TInv ({ t with originMode := o } : Terminal) = true := h
+  have c : covered t .ri = true := by simpa [covered] using hne
+  have c' : covered ({ t with originMode := o } : Terminal) .ri = true := c
+  rw [C05_move h c, C05_move h' c']
+  refine ⟨?_, ?_⟩
+  · simp only [moveSpec, Option.map_some]
+    split <;> rfl
+  · intro t' he
+    cases he
+    simp only [moveSpec]
+    split
+    · rfl
+    · show t.cursor.row = t.cursor.row - 1; omega
+
+/-- relative vertical moves in words: exactly `n` rows (`n` = the parameter, missing or 0 meaning 1)
+    when there is room, otherwise the margin (or the screen edge when starting outside the region);
+    a move that starts inside the region ends inside it -/
+theorem C05_vertical {t : Terminal} (h : TInv t = true) (n : Nat) :
+    (t.topMargin ≤ t.cursor.row → t.topMargin + arg n ≤ t.cursor.row → up t (arg n) = t.cursor.row - arg n)
+    ∧ (t.topMargin ≤ t.cursor.row → t.cursor.row < t.topMargin + arg n → up t (arg n) = t.topMargin)
+    ∧ (t.cursor.row < t.topMargin → up t (arg n) = t.cursor.row - arg n)
+    ∧ (t.cursor.row ≤ t.bottomMargin → t.cursor.row + arg n ≤ t.bottomMargin → down t (arg n) = t.cursor.row + arg n)
+    ∧ (t.cursor.row ≤ t.bottomMargin → t.bottomMargin < t.cursor.row + arg n → down t (arg n) = t.bottomMargin)
+    ∧ (t.bottomMargin < t.cursor.row → down t (arg n) = min (t.rows - 1) (t.cursor.row + arg n))
+    ∧ (t.topMargin ≤ t.cursor.row → t.cursor.row ≤ t.bottomMargin →
+        t.topMargin ≤ up t (arg n) ∧ up t (arg n) ≤ t.bottomMargin
+          ∧ t.topMargin ≤ down t (arg n) ∧ down t (arg n) ≤ t.bottomMargin) := by
+  have F := facts h
+  have := F.tb
+  have := F.br
+  have := arg_pos n
+  unfold up down lastRow
+  refine ⟨?_, ?_, ?_, ?_, ?_, ?_, ?_⟩
+  all_goals intros
+  all_goals repeat' apply And.intro
+  all_goals repeat' split
+  all_goals omega
+
+/-- absolute addressing in words: 1-based coordinates clamped to the screen, or — in origin mode —
+    relative to and clamped within the scroll region -/
+theorem C05_absolute {t : Terminal} (h : TInv t = true) (r : Nat) :
+    (t.originMode = false → absRow t (arg r - 1) = min (arg r - 1) (t.rows - 1))
+    ∧ (t.originMode = true → absRow t (arg r - 1) = min (t.topMargin + (arg r - 1)) t.bottomMargin
+        ∧ t.topMargin ≤ absRow t (arg r - 1) ∧ absRow t (arg r - 1) ≤ t.bottomMargin) := by
+  have F := facts h
+  have := F.tb
+  unfold absRow lastRow
+  refine ⟨?_, ?_⟩ <;> intro ho <;> simp only [ho, if_true, Bool.false_eq_true, if_false]
+  refine ⟨trivial, ?_, ?_⟩ <;> omega
+
+/-! ### the hypotheses are satisfiable on a non-trivial state -/
+
+/-- 10×6, scroll region rows 1..3, origin mode on, cursor in the wrap-pending column of row 4
+    (below the region), a customised stop vector -/
+def C05_example : Terminal :=
+  { cols := 10, rows := 6, buffer := Buffer.new 10 6 none none, otherBuffer := Buffer.new 10 6 (some 0) none,
+    activeBufferType := .primary, scrollbackLimit := none, cursor := { col := 10, row := 4 }, pen := {},
+    charsets := (.ascii, .ascii), activeCharset := 0, tabs := [3, 8], insertMode := false,
+    originMode := true, autoWrapMode := true, newLineMode := false, cursorKeysMode := .normal,
+    pendingWrap := true, topMargin := 1, bottomMargin := 3, savedCtx := {}, alternateSavedCtx := {},
+    dirtyLines := Dirty.new 6, xtwinops := false }
+
+example : TInv C05_example = true ∧ covered C05_example (.cuu 0) = true ∧ covered C05_example .ri = true
+    ∧ covered C05_example (.cup 9 9) = true ∧ covered C05_example (.decrst [.origin]) = true
+    ∧ (moveSpec C05_example (.cuu 9)).cursor = { col := 9, row := 1 }      -- stops at the top margin
+    ∧ (moveSpec C05_example (.cud 9)).cursor = { col := 9, row := 5 }      -- starts below the region
+    ∧ (moveSpec C05_example (.cub 2)).cursor = { col := 7, row := 4 }      -- counted from the last real column
+    ∧ (moveSpec C05_example (.cup 9 9)).cursor = { col := 8, row := 3 }    -- clamped within the region
+    ∧ (moveSpec C05_example .ri).cursor = { col := 9, row := 3 }
+    ∧ (moveSpec C05_example (.cbt 1)).cursor = { col := 8, row := 4 } := by
+  decide
+
+end Avt
